@@ -75,13 +75,13 @@ PAGE_LINKS = ['!' + p for p in NETWORK + WE_LINKS + PAGELINK_PAGING + MOST_LINKE
 MONO = ['R-MONOTONE-CALLERS', 'R-MONOTONE-POINTERS']
 WE_FILTERS = ['Traph.get_webentity_pagelinks_iter', 'Traph.paginate_webentity_pagelinks']
 # rule groups: necessary conditions shared by several properties
-TRIE = ['R-FRESH', 'R-DIRTY-WRITTEN', 'R-BST-AGREE', 'R-PARENT-PAIR', 'R-TAIL-PROTOCOL', 'R-READ-RESETS', 'R-CHUNK-LAST', 'R-LRU-ASSEMBLY', 'R-OPEN-TABLE', 'R-NO-STALE-CACHE', 'R-POINTEE-FIRST', 'R-CLEAR-AGREE'] + MONO
+TRIE = ['R-FRESH', 'R-DIRTY-WRITTEN', 'R-BST-AGREE', 'R-PARENT-PAIR', 'R-TAIL-PROTOCOL', 'R-READ-RESETS', 'R-CHUNK-LAST', 'R-LRU-ASSEMBLY', 'R-OPEN-TABLE', 'R-NO-STALE-CACHE', 'R-POINTEE-FIRST', 'R-CLEAR-AGREE', 'R-SKIP-CHILDLESS', 'R-ACCESSOR-TABLE'] + MONO
 LINKS = ['R-LINK-PAIR', 'R-HEAD-REPOINT', 'R-LINK-WALK', 'R-DIRECTION', 'R-NO-EARLY-EXIT']
 RESOLVE = ['R-TRACK-AGREE', 'R-OWN-ERROR', 'R-NO-STALE-CACHE', 'R-LRU-ASSEMBLY', 'R-NEAREST-WE']
 WALK = ['R-RELEVANCE', 'R-STACK-BLOCKS', 'R-EVERY-PREFIX', 'R-NO-EARLY-EXIT', 'R-NODE-ALIAS', 'R-LRU-ASSEMBLY']
 
 READ_BASICS = ['R-TAIL-PROTOCOL', 'R-READ-RESETS', 'R-BST-AGREE', 'R-PRIMITIVES', 'R-STORAGE-IFACE', 'R-STORAGE-SEM', 'R-FRESH', 'R-DIRTY-WRITTEN', 'R-OPEN-TABLE',
-               'R-CHUNK-LAST', 'R-NO-STALE-CACHE']
+               'R-CHUNK-LAST', 'R-NO-STALE-CACHE', 'R-ACCESSOR-TABLE']
 
 
 def G(pid):
@@ -99,26 +99,26 @@ RULESETS = {
  'C06': ['R-LADDER-AGREE', 'R-TRACK-AGREE', 'R-RULES-TO-APPLY', 'R-ID', 'R-RULE-INSTALL', 'R-WE-ATTACH', 'R-VARIATIONS', 'R-BST-AGREE', 'R-SKIP-CHILDLESS', 'R-PREFIX-EDIT',
          'R-FRESH', 'R-DIRTY-WRITTEN', 'R-PRIMITIVES'] + [('R-WRAPPERS', ['Traph.add_webentity_creation_rule'])] + ['R-OPEN-TABLE', ('R-READONLY', ['Traph.get_potential_prefix'])] + ['R-CLEAR-AGREE', 'R-LRU-ASSEMBLY', 'R-GEN-DRAINED'] + G('C06'),
  'C07': ['R-PROPAGATE', ('R-FILTER-AGREE', NETWORK), ('R-MEMO-KEY', NETWORK), ('R-NULL-HEAD', NETWORK), 'R-NO-STALE-CACHE', 'R-LRU-ASSEMBLY', 'R-ARGS-HONOURED', 'R-NEAREST-WE',
-         ('R-ACCUMULATE', NETWORK)] + LINKS + READ_BASICS + [('R-WRAPPERS', NETWORK)] + ['R-NODE-ALIAS'] + ['R-EVERY-ITEM'] + G('C07'),
+         ('R-ACCUMULATE', NETWORK + ['Traph.index_batch_crawl_iter'])] + LINKS + READ_BASICS + [('R-WRAPPERS', NETWORK)] + ['R-NODE-ALIAS'] + ['R-EVERY-ITEM'] + G('C07'),
  'C08': [('R-NULL-HEAD', WE_LINKS), ('R-FILTER-AGREE', WE_FILTERS + WE_LINKS), ('R-MEMO-KEY', ['!Traph.get_webentities_*']), 'R-NO-STALE-CACHE', 'R-DISTINCT-DEGREE',
          'R-LRU-ASSEMBLY', 'R-ARGS-HONOURED', 'R-FRESH', 'R-DIRTY-WRITTEN', 'R-NEAREST-WE', ('R-ACCUMULATE', ['Traph.get_webentity_*'])] + WALK + LINKS + READ_BASICS + [('R-WRAPPERS', ['Traph.get_webentity_*'])] + G('C08'),
  'C09': [('R-TOKEN-PAIR', ['Traph.paginate_webentity_pages']), 'R-TOKEN-CODEC', 'R-ORDER', ('R-PAGINATE', ['Traph.paginate_webentity_pages'])] + WALK + MONO + READ_BASICS + G('C09'),
  'C10': [('R-TOKEN-PAIR', PAGELINK_PAGING), ('R-FILTER-AGREE', WE_FILTERS), ('R-MEMO-KEY', WE_FILTERS), ('R-NULL-HEAD', PAGELINK_PAGING), 'R-TOKEN-CODEC', 'R-ORDER',
          ('R-PAGINATE', PAGELINK_PAGING), 'R-RELEVANCE', 'R-EVERY-PREFIX', 'R-NO-EARLY-EXIT', 'R-LINK-WALK', 'R-NEAREST-WE', ('R-ACCUMULATE', WE_FILTERS)] + READ_BASICS + ['R-NODE-ALIAS'] + ['R-NO-STALE-CACHE', 'R-LRU-ASSEMBLY'] + G('C10'),
  'C11': ['R-OPEN-TABLE', 'R-CLEAR-AGREE', 'R-GEOMETRY', 'R-ID', 'R-DIRTY-WRITTEN', 'R-STORAGE-SEM', 'R-STORAGE-IFACE', 'R-RULE-INSTALL', 'R-CLOSE', 'R-STORAGE-STATELESS',
-         'R-PRIMITIVES', 'R-GEN-DRAINED'] + G('C11'),
+         'R-PRIMITIVES', 'R-GEN-DRAINED', 'R-LINK-WALK'] + G('C11'),
  'C12': ['R-ID', 'R-DIRTY-WRITTEN', 'R-STORAGE-IFACE', 'R-STORAGE-SEM', 'R-REFUSE-CLEAN', 'R-PRIMITIVES', 'R-PREFIX-EDIT', 'R-STORAGE-STATELESS'] + ['R-OPEN-TABLE', 'R-CLEAR-AGREE'] + G('C12'),
  'C13': ['R-WE-ATTACH', 'R-ANCESTOR-FLAG', 'R-SKIP-CHILDLESS', 'R-HIERARCHY', 'R-FRESH', 'R-DIRTY-WRITTEN', 'R-EVERY-PREFIX', 'R-ARGS-HONOURED', 'R-NO-EARLY-EXIT',
-         'R-PRIMITIVES', 'R-NEAREST-WE', ('R-ACCUMULATE', ['Traph.get_webentity_child_webentities_iter', 'Traph.get_webentity_parent_webentities']), 'R-LRU-ASSEMBLY'] + MONO + [('R-WRAPPERS', ['Traph.get_webentity_child_webentities'])] + ['R-NODE-ALIAS'] + G('C13'),
+         'R-PRIMITIVES', 'R-NEAREST-WE', ('R-ACCUMULATE', ['Traph.get_webentity_child_webentities_iter', 'Traph.get_webentity_parent_webentities']), 'R-LRU-ASSEMBLY'] + MONO + [('R-WRAPPERS', ['Traph.get_webentity_child_webentities'])] + ['R-NODE-ALIAS'] + READ_BASICS + G('C13'),
  'C14': ['R-READONLY', 'R-WRITE-API'],
- 'C15': ['R-STORAGE-IFACE', 'R-STORAGE-SEM', 'R-OPEN-TABLE', 'R-CLEAR-AGREE', 'R-READ-RESETS', 'R-STORAGE-STATELESS', 'R-CLOSE', 'R-DIRTY-WRITTEN', 'R-GEOMETRY'] + G('C15'),
+ 'C15': ['R-STORAGE-IFACE', 'R-STORAGE-SEM', 'R-OPEN-TABLE', 'R-CLEAR-AGREE', 'R-READ-RESETS', 'R-STORAGE-STATELESS', 'R-CLOSE', 'R-DIRTY-WRITTEN', 'R-GEOMETRY', 'R-PRIMITIVES'] + G('C15'),
  'C16': ['R-FRESH', 'R-DIRTY-WRITTEN', 'R-STACK-BLOCKS', 'R-NO-STALE-CACHE', ('R-FILTER-AGREE', NETWORK + WE_FILTERS), 'R-HEAD-REPOINT', ('R-MEMO-KEY', NETWORK), 'R-DIRECTION', 'R-LINK-PAIR',
-         'R-PRIMITIVES', 'R-READ-RESETS', 'R-ACCUMULATE', 'R-LAZY-REQUEST'] + ['R-WRAPPERS'] + ['R-NODE-ALIAS'] + ['R-EVERY-ITEM'] + G('C16'),
+         'R-PRIMITIVES', 'R-READ-RESETS', 'R-ACCUMULATE', 'R-LAZY-REQUEST', 'R-STORAGE-IFACE', 'R-STORAGE-SEM'] + ['R-WRAPPERS'] + ['R-NODE-ALIAS'] + ['R-EVERY-ITEM'] + G('C16'),
  'C17': ['R-VARIATIONS', 'R-LADDER-AGREE', 'R-ID', 'R-NO-STALE-CACHE', 'R-FRESH', 'R-DIRTY-WRITTEN'] + G('C17'),
  'C18': ['R-OPEN-TABLE', 'R-POINTEE-FIRST', 'R-GEOMETRY', 'R-NONE-CHECK', 'R-STORAGE-IFACE', 'R-HEAD-REPOINT', 'R-FRESH', 'R-DIRTY-WRITTEN', 'R-TAIL-PROTOCOL',
-         'R-STORAGE-STATELESS', 'R-PRIMITIVES', 'R-CLOSE', 'R-TRUNC-ORDER'] + ['R-CHUNK-LAST', 'R-READ-RESETS', 'R-NULL-THRESHOLD'] + [g for g in G('C18') if g[0] != 'R-NULL-THRESHOLD'],
+         'R-STORAGE-STATELESS', 'R-PRIMITIVES', 'R-CLOSE', 'R-TRUNC-ORDER', ('R-FILTER-AGREE', NETWORK), 'R-ACCESSOR-TABLE'] + ['R-CHUNK-LAST', 'R-READ-RESETS', 'R-NULL-THRESHOLD'] + [g for g in G('C18') if g[0] != 'R-NULL-THRESHOLD'],
  'C19': ['R-CHUNK-LAST', 'R-ALLOC', 'R-GEOMETRY', 'R-METRICS', 'R-HEAD-REPOINT', 'R-LINK-PAIR', 'R-LINK-WALK', 'R-FRESH', 'R-DIRTY-WRITTEN', 'R-TAIL-PROTOCOL', 'R-READ-RESETS',
-         'R-BST-AGREE', 'R-STORAGE-SEM', 'R-STORAGE-STATELESS', 'R-PRIMITIVES'] + ['R-CLEAR-AGREE', 'R-EVERY-ITEM', 'R-OPEN-TABLE', 'R-NULL-THRESHOLD'] + ['R-STORAGE-IFACE'] + [g for g in G('C19') if g[0] != 'R-NULL-THRESHOLD'],
+         'R-BST-AGREE', 'R-STORAGE-SEM', 'R-STORAGE-STATELESS', 'R-PRIMITIVES'] + ['R-CLEAR-AGREE', 'R-EVERY-ITEM', 'R-OPEN-TABLE', 'R-NULL-THRESHOLD', 'R-CLOSE', 'R-ACCESSOR-TABLE'] + ['R-STORAGE-IFACE'] + [g for g in G('C19') if g[0] != 'R-NULL-THRESHOLD'],
  'C20': [('R-NULL-HEAD', MOST_LINKED), 'R-DISTINCT-DEGREE', 'R-TOPK', 'R-LINK-PAIR', 'R-LINK-WALK', 'R-HEAD-REPOINT', ('R-ACCUMULATE', MOST_LINKED)] + WALK + READ_BASICS + [('R-WRAPPERS', ['Traph.get_webentity_most_linked_pages'])] + [('R-FILTER-AGREE', MOST_LINKED)] + G('C20'),
 }
 
